@@ -373,20 +373,24 @@ PROPS["C06"] = {
                   "jump targets, no block without terminator or with the marker reached, every read preceded by an assignment; "
                   "returns_value_on_every_path — a body accepted by checkFn as value-returning has no return without a value on any path. "
                   "The check is still run on the real IR of every generated accepted program AND on the function bodies re-read from the "
-                  "real header: that covers what the builder theorems do not — the model/implementation correspondence itself, the "
-                  "property-dependency pass that inserts observe statements after build, and the C++ emission.",
+                  "real header: After build, for bindings, runs analyze_code_property_dependency: analysis_preserves_cfg_conclusion — for EVERY body the pass "
+                  "keeps every terminator and inserts only observe statements, each directly before a statement that reads the observed "
+                  "local itself, so the whole conclusion of checkCfg_sound carries over on every path; build_analyze_passes_check_semantic "
+                  "— the analysed body of every program satisfies it; build_analyze_observe_sender_assigned — the sender local of every "
+                  "inserted observe statement is assigned on every path before it. The per-output checks still cover what the theorems do "
+                  "not: the model/implementation correspondence itself and the C++ emission.",
     "level_note": "trusted: Lean kernel; IR serialiser; the ∀-programs theorems are about the Lean model of the builder and reach the real "
                   "builder through the exact model/implementation IR comparison of every run (differential, not proved); not covered by "
-                  "them and decided per output: analyze_code_property_dependency (observeProperty statements) and the C++ emitter "
-                  "(cfgcheck-cxx); F1 (non-empty tail block marked unreachable), F17 (empty switch panic) and F100 (a variable declared "
+                  "them and decided per output: the C++ emitter (cfgcheck-cxx); analyze_code_property_dependency is covered (model of "
+                  "propdep.rs, tied by the same exact-IR comparison); F1 (non-empty tail block marked unreachable), F17 (empty switch panic) and F100 (a variable declared "
                   "with initialiser in one switch clause could be read unassigned in a later clause — found by the proof attempt of "
                   "build_defines_before_use, whose invariant failed at walkBodies; pre-repair witness "
                   "Props.C06.f100_defines_before_use_old_refuted) are repaired in /repo; build_passes_check_full_statement (`check code = "
                   "true`, without the exemption of user-uninitialised variables, e.g. `{ let v: int; return v }`) stays an unproved "
                   "definition and is superseded by build_passes_check_semantic",
     "technique": "Lean 4 proofs by induction over the model walk (control-flow skeleton invariant + define-before-use certificate constructed "
-                 "along the walk + graph invariant of the finalisation) and of a CFG certificate checker applied to every real IR; exact-IR "
-                 "differential correspondence",
+                 "along the walk + graph invariant of the finalisation + preservation of the conclusion by the property-dependency pass) and "
+                 "of a CFG certificate checker applied to every real IR; exact-IR differential correspondence",
 }
 
 # PROPS blocks for C04, C14, C20 — to be pasted into /verif/tools/qvconfig.py
@@ -761,7 +765,12 @@ PROPS["C02"] = {
                     "the emitted C++ follows the IR statement by statement (C16/C01 tie; c02-header checks the subscription part)"],
     "level_text": "proof over the abstract world + proof about the model of propdep.rs + translation validation of every real IR: "
                   "propdep_covers — for EVERY IR without observe statements, if analyze_code_property_dependency (model) reports no "
-                  "diagnostic and no panic its output passes `covered`; binding_current/binding_subscribed — for every covered body, "
+                  "diagnostic and no panic its output passes `covered`; and for ALL programs (one more induction over the model walk): "
+                  "build_noObserve — the builder never emits an observe statement; build_analysis_never_panics — the object operand of "
+                  "every readProperty the builder emits is a local, a named object or non-pointer, so the analysis never reaches its "
+                  "`invald read_property` panic; build_propdep_covers — the analysed body of EVERY program on which the analysis reports "
+                  "no diagnostic passes `covered`; build_binding_current — for every such program the currency conclusion holds with no "
+                  "coverage hypothesis left; binding_current/binding_subscribed — for every covered body, "
                   "after setup() and after ANY finite history of property changes with notification (incl. re-pointing and nulling of "
                   "intermediate pointers, changes of unread and notify-less properties, extra slot runs from stale observers) along "
                   "which the expression stays defined, target = value of the body in the current state and every read of the last "
@@ -774,9 +783,10 @@ PROPS["C02"] = {
                   "binding_current treats operators/casts/builtins/pure method calls as an arbitrary deterministic function of operand "
                   "values and excludes writes inside bindings and evaluations revisiting a block (the language has no loops; the "
                   "history stream would report such IR as undefined, C06 covers the CFG); (3) the link model-of-propdep ↔ real "
-                  "propdep.rs is the exact-IR correspondence of stream `ir` (C06) plus `coveredcheck` on every real IR here — no "
+                  "propdep.rs is the exact-IR correspondence of stream `ir` (C06) plus `coveredcheck` on every real IR here (now redundant for the model: coverage of "
+                  "every built body is a theorem, build_propdep_covers; kept as translation validation of the real analysis output) — no "
                   "theorem about the Rust source; (4) gadget-map members (font.*, sizePolicy.*) are generated: their IR goes through coveredcheck and the history run, and the header scan checks the shared update path of the whole gadget; gadget maps nested deeper than one level and contentsMargins/geometry members (rejected by qmluic as not readable) are not generated",
-    "technique": "Lean 4 proofs (coverage of the dependency analysis; invariant of an abstract signal/slot world) + checker with "
+    "technique": "Lean 4 proofs (coverage of the dependency analysis, for every output of the model builder; invariant of an abstract signal/slot world) + checker with "
                  "soundness proof applied to every real IR + execution of real IR in the abstract world on random histories + header scan",
 }
 
